@@ -54,7 +54,10 @@ def run(ctx):
             if need == "handle_message" and "run" in meths:
                 # the per-datagram step may have been inlined into the run loop: process_message is then called from `run` itself
                 cgx = callgraph.CallGraph(fx)
-                if any(fx.root_fn(cs.real_caller) == meths["run"]["id"] for cs in cgx.callers_of(roles.process_message["id"], raw=True)):
+                # (directly, or through a private helper the pinned tree does not have — e.g. a free function taking the lock and
+                # the socket — which the engine inlines into the loop)
+                if any(fx.root_fn(cs.real_caller) == meths["run"]["id"] or fx.root_fn(cs.caller) == meths["run"]["id"]
+                       for cs in cgx.callers_of(roles.process_message["id"], raw=True) + cgx.callers_of(roles.process_message["id"])):
                     continue
             raise AnchorLost("server::" + need, "async method of Server not found (have %s)" % sorted(meths))
     r19_1(ctx, rep, meths)
